@@ -1,5 +1,10 @@
+mod check;
 mod events;
+mod exec;
+mod gen;
 mod hooks;
+mod minimize;
+mod model;
 mod node;
 mod obs;
 mod ops;
@@ -10,45 +15,34 @@ extern "C" {
     fn detrand_seed(seed: u64);
 }
 
+/// Re-seeds the process-wide "OS randomness" (getrandom) stream. Call before each simulation.
 pub fn seed_os_randomness(seed: u64) {
     unsafe { detrand_seed(seed) }
 }
 
+fn usage() -> ! {
+    eprintln!(
+        "usage:\n  teos-sim check <Cxx> [--tier quick|thorough] [--runs N] [--secs S] [--jobs J]\n  teos-sim --replay <file>\n  teos-sim selftest determinism [--runs N]\n  teos-sim gen <Cxx> <index>\n  teos-sim one <Cxx> <index>"
+    );
+    std::process::exit(2)
+}
+
 fn main() {
-    seed_os_randomness(1);
-    let t0 = std::time::Instant::now();
-    let log = events::EventLog::new();
-    let node = node::SimNode::new(log.clone(), 110, false);
-    println!("node built in {:?}", t0.elapsed());
-    let dir = std::path::PathBuf::from("/dev/shm/teos-sim-smoke");
-    let _ = std::fs::remove_dir_all(&dir);
-    std::fs::create_dir_all(&dir).unwrap();
-    let cfg = ops::TowerCfg { slots: 10, duration: 100, grace: 6, txindex: false, start_height: 110 };
-    let uni = node::Universe { seed: 7 };
-    tower::run_tower(&dir, &node, &cfg, &log, true, |ctx| {
-        println!("booted in {:?}", t0.elapsed());
-        let sk = uni.user_sk(0);
-        let pk = bitcoin::secp256k1::PublicKey::from_secret_key(&bitcoin::secp256k1::Secp256k1::new(), &sk);
-        let r = tower::api_register(&ctx.api, pk.serialize().to_vec());
-        println!("register: {:?}", r);
-        let d = uni.dispute(0);
-        let p = uni.penalty(0, 0, 0);
-        let blob = teos_common::cryptography::encrypt(&p, &d.compute_txid()).unwrap();
-        let loc = teos_common::appointment::Locator::new(d.compute_txid());
-        let app = teos_common::appointment::Appointment::new(loc, blob.clone(), 42);
-        let sig = teos_common::cryptography::sign(&app.to_vec(), &sk);
-        let r = tower::api_add(&ctx.api, loc.to_vec(), blob, 42, sig);
-        println!("add: {:?}", r.map(|r| (r.start_block, r.available_slots)));
-        node.lock().roots.insert(uni.fund_outpoint(0));
-        node.lock().mine(vec![d.clone()]);
-        (ctx.poll)();
-        let sig = teos_common::cryptography::sign(format!("get appointment {loc}").as_bytes(), &sk);
-        let r = tower::api_get(&ctx.api, loc.to_vec(), sig);
-        println!("get: {:?}", r.map(|r| r.status));
-        println!("db: {:?}", tower::dump_db(&ctx.db_path).trackers.len());
-    });
-    for e in log.since(0) { 
-        match e { events::Event::BlockEnd{db, height, ..} => println!("BlockEnd {height} {}", db.is_some()), e => println!("{:?}", e) }
+    // Deterministic from the very first HashMap on.
+    seed_os_randomness(0);
+    let args: Vec<String> = std::env::args().skip(1).collect();
+    if args.is_empty() {
+        usage();
     }
-    println!("total {:?}", t0.elapsed());
+    let code = match args[0].as_str() {
+        "check" => check::cmd_check(&args[1..]),
+        "worker" => check::cmd_worker(&args[1..]),
+        "--replay" | "replay" => check::cmd_replay(&args[1..]),
+        "selftest" => check::cmd_selftest(&args[1..]),
+        "gen" => check::cmd_gen(&args[1..]),
+        "one" => check::cmd_one(&args[1..]),
+        id if id.starts_with('C') => check::cmd_check(&args),
+        _ => usage(),
+    };
+    std::process::exit(code);
 }
